@@ -391,6 +391,7 @@ func childMain(spec *Spec, tier string, seed int64, only string, workers, round 
 		spec.Setup(r)
 	}
 	if only != "" {
+		go memWatchdog(spec.Property)
 		k := strings.LastIndex(only, ":")
 		name := only[:k]
 		idx, _ := strconv.Atoi(only[k+1:])
@@ -428,6 +429,7 @@ func childMain(spec *Spec, tier string, seed int64, only string, workers, round 
 		jf.Truncate(int64(journalRec * (workers + 1)))
 	}
 	start := time.Now()
+	go memWatchdog(spec.Property)
 	var broken []string
 	for si := range spec.Subs {
 		s := &spec.Subs[si]
@@ -567,7 +569,7 @@ func supervise(spec *Spec, tier string, seed int64, workers int) int {
 	}
 	hang := time.Duration(spec.HangSeconds) * time.Second
 	if hang == 0 {
-		hang = 180 * time.Second
+		hang = 120 * time.Second
 	}
 	kf := loadKnown()
 	isKnown := func(sig string) (string, bool) {
@@ -677,41 +679,56 @@ func supervise(spec *Spec, tier string, seed int64, workers int) int {
 		tail := tailFile(logPath, 60)
 		fmt.Fprintf(os.Stderr, "child of %s ended abnormally (hung=%v err=%v); %d in-flight case(s); isolating\n", spec.Property, hung, werr, len(cases))
 		confirmed := 0
-		for _, cs := range cases {
-			ilog := filepath.Join(wd, fmt.Sprintf("%s.isolate.log", spec.Property))
-			ic := exec.Command(exe, "-child", "-tier", tier, "-seed", args[4], "-only", cs.sub+":"+strconv.Itoa(cs.idx))
-			f, _ := os.Create(ilog)
-			ic.Stdout, ic.Stderr = f, f
-			ic.Env = os.Environ()
-			ic.Start()
-			idone := make(chan error, 1)
-			go func() { idone <- ic.Wait() }()
-			var ierr error
-			ihung := false
-			select {
-			case ierr = <-idone:
-			case <-time.After(hang):
-				ihung = true
-				ic.Process.Signal(syscall.SIGQUIT)
+		type isoRes struct {
+			cs    inflight
+			hung  bool
+			code  int
+			itail []string
+		}
+		results := make([]isoRes, len(cases))
+		var iwg sync.WaitGroup
+		for ci, cs := range cases {
+			iwg.Add(1)
+			go func(ci int, cs inflight) {
+				defer iwg.Done()
+				ilog := filepath.Join(wd, fmt.Sprintf("%s.isolate.%d.log", spec.Property, ci))
+				ic := exec.Command(exe, "-child", "-tier", tier, "-seed", args[4], "-only", cs.sub+":"+strconv.Itoa(cs.idx))
+				f, _ := os.Create(ilog)
+				ic.Stdout, ic.Stderr = f, f
+				ic.Env = os.Environ()
+				ic.Start()
+				idone := make(chan error, 1)
+				go func() { idone <- ic.Wait() }()
+				var ierr error
+				ihung := false
 				select {
-				case <-idone:
-				case <-time.After(10 * time.Second):
-					ic.Process.Kill()
-					<-idone
+				case ierr = <-idone:
+				case <-time.After(hang):
+					ihung = true
+					ic.Process.Signal(syscall.SIGQUIT)
+					select {
+					case <-idone:
+					case <-time.After(10 * time.Second):
+						ic.Process.Kill()
+						<-idone
+					}
 				}
-			}
-			f.Close()
-			code := 0
-			if ee, ok := ierr.(*exec.ExitError); ok {
-				code = ee.ExitCode()
-			}
+				f.Close()
+				code := 0
+				if ee, ok := ierr.(*exec.ExitError); ok {
+					code = ee.ExitCode()
+				}
+				results[ci] = isoRes{cs, ihung, code, tailFile(ilog, 80)}
+			}(ci, cs)
+		}
+		iwg.Wait()
+		for _, ir := range results {
+			cs, ihung, code, itail := ir.cs, ir.hung, ir.code, ir.itail
 			if !ihung && (code == 0 || code == 1 || code == 3) {
-				// ran to a verdict in isolation: ordinary violations were
-				// reported by the isolated run's own replay; not the culprit.
+				// ran to a verdict in isolation: not the culprit.
 				continue
 			}
 			confirmed++
-			itail := tailFile(ilog, 80)
 			kind := "fatal"
 			if ihung {
 				kind = "hang"
@@ -981,4 +998,19 @@ func parseRaceLog(s string) (int, []string) {
 		keys = append(keys, a+" <-> "+c)
 	}
 	return len(blocks) - 1, keys
+}
+
+// memWatchdog aborts the child when the heap explodes (a runaway allocation in
+// the code under test); the supervisor then isolates the in-flight cases.
+func memWatchdog(prop string) {
+	limit := uint64(envInt("VERIF_MEM_LIMIT_MB", 12000)) << 20
+	var ms runtime.MemStats
+	for {
+		time.Sleep(300 * time.Millisecond)
+		runtime.ReadMemStats(&ms)
+		if ms.HeapAlloc > limit {
+			fmt.Fprintf(os.Stderr, "fatal error: memory watchdog: heap %d MiB exceeds %d MiB\n", ms.HeapAlloc>>20, limit>>20)
+			os.Exit(2)
+		}
+	}
 }
